@@ -5,7 +5,7 @@
 (* A header (Accept / Content-Type) arrives as a sequence of media ranges  *)
 (*      [t, s, opts, q]      kind = t "/" s  ("*" = wildcard),             *)
 (*                           opts = set of <<key, value>> (keys unique),   *)
-(*                           q    = quality in thousandths 1..1000, or NoQ *)
+(*                           q    = quality in thousandths 0..1000, or NoQ *)
 (*                                  (no q parameter, weighs like q=1).     *)
 (* State: `hdr` = the ranges read so far in header order, `pref` = the     *)
 (* client's preference order over them (indexes into hdr) maintained range *)
@@ -31,7 +31,16 @@
 (* decoder in table order.  Rule = "encoder-outer" (loops swapped) is the  *)
 (* known-bad variant which TLC must refute (ImplEncoderRefines).           *)
 (*                                                                         *)
-(* Not modelled (property silent, excluded in the generators): q=0,        *)
+(* q = 0 is the lowest quality: parse puts such ranges behind every        *)
+(* positive one, ties in header order (demanded like for any other         *)
+(* quality).  For the CHOICE the property text ("first supported one in    *)
+(* the preference order") and RFC 7231 ("q=0: not acceptable") differ on   *)
+(* one point only - whether a zero-weighted range may be the decisive one  *)
+(* when no positive range is supported; both outcomes are allowed there    *)
+(* (EncoderSetZ / ReplySetZ = the choice over the positive ranges alone).  *)
+(* A zero-weighted range never beats a supported positive one.             *)
+(*                                                                         *)
+(* Not modelled (property silent, excluded in the generators):             *)
 (* malformed q / empty ranges / quoted strings, duplicate option keys,     *)
 (* wildcards in the concrete side of Match, case of option VALUES.         *)
 (***************************************************************************)
@@ -71,6 +80,9 @@ KindsGlob == {K("application", "json"), K("application", "jsonl"), K("applicatio
               K("application", "js"), K("text", "csv"), K("text", "csv-schema"), K("text", "cs"), K("tex", "csv"), K("*", "*"),
               K("*", "json"), K("*", "js*"), K("app*", "json"), K("application", "j*n"), K("*", "*sv"), K("t*t", "c*v"),
               K("*", "*n*")}
+\* for the run over zero weights: the first encoder of the table, a whole-component wildcard, an unsupported kind
+KindsZero == {K("application", "json"), K("text", "*"), K("foo", "bar")}
+OptsNone == {{}}
 OptsFull == {{}, {Fmt("pandas-records")}, {Fmt("pandas-split")}, {Utf8}, {Fmt("pandas-records"), Utf8},
              {Fmt("pandas-split"), Utf8}}
 OptsMid == {{}, {Fmt("pandas-split")}, {Utf8}}
@@ -79,6 +91,7 @@ QsFull == {NoQ, 100, 500, 1000}
 QsSmall == {NoQ, 500, 1000}
 QsTwo == {NoQ, 500}
 QsOne == {NoQ}
+QsZero == {NoQ, 0, 500, 1000}     \* the lowest quality next to a middle one and the two spellings of the highest
 
 Ranges == {[t |-> k.t, s |-> k.s, opts |-> o, q |-> q] : k \in Kinds, o \in OptSets, q \in Qs}
 
@@ -89,6 +102,8 @@ Before(h, i, j) == W(h[i]) > W(h[j]) \/ (W(h[i]) = W(h[j]) /\ i < j)
 Rank(h, i) == 1 + Cardinality({j \in 1..Len(h) : Before(h, j, i)})
 ParseOrder(h) == [p \in 1..Len(h) |-> CHOOSE i \in 1..Len(h) : Rank(h, i) = p]
 Parsed(h) == [p \in 1..Len(h) |-> Strip(h[ParseOrder(h)[p]])]
+\* the ranges of positive quality, in header order (RFC 7231: q=0 = "not acceptable")
+Positive(h) == SelectSeq(h, LAMBDA r : W(r) > 0)
 
 (******************************** match ************************************)
 \* the kind of an encoding is the text  t "/" s ; the kind of a pattern is a glob over that text: every "*" stands
@@ -152,6 +167,13 @@ ImplDecoder(c) == LET D == DecoderSet(c) IN IF D = {} THEN 0 ELSE Min(D)
 \* stated no preference at all is (as-is default, not demanded by the property) answered in the encoding it sent.
 AcceptList(ct, ps) == IF ps = <<>> THEN <<ct>> ELSE ps
 ReplySet(ct, ps) == EncoderSet(AcceptList(ct, ps))
+\* the choice when zero-weighted ranges are read as "not acceptable": over the positive ranges of header h alone.
+\* (zero-weighted ranges come last in Parsed(h): this is EncoderSet(Parsed(h)) or - no positive range supported - {})
+EncoderSetZ(h) == EncoderSet(Parsed(Positive(h)))
+\* h = the Accept header in header order (<<>> = none: as ReplySet)
+ReplySetZ(ct, h) == IF h = <<>> THEN ReplySet(ct, <<>>) ELSE EncoderSetZ(h)
+\* outcome o (an encoder index, 0 = the unsupported-encoding error) is allowed by the set S of admissible encoders
+Allows(S, o) == IF S = {} THEN o = 0 ELSE o \in S
 
 (****************************** behaviours *********************************)
 Init == hdr = <<>> /\ pref = <<>>
@@ -159,7 +181,7 @@ Init == hdr = <<>> /\ pref = <<>>
 AddRange(r) ==
     LET n == Len(hdr) + 1
         k == Cardinality({i \in 1..Len(pref) : W(hdr[pref[i]]) >= W(r)})
-    IN /\ r.q \in (1..1000) \cup {NoQ}
+    IN /\ r.q \in (0..1000) \cup {NoQ}
        /\ hdr' = Append(hdr, r)
        /\ pref' = SubSeq(pref, 1, k) \o <<n>> \o SubSeq(pref, k + 1, Len(pref))
 AddDefault == Len(hdr) < MaxLen /\ \E r \in Ranges : r.q = NoQ /\ AddRange(r)
@@ -186,6 +208,14 @@ EncoderSound ==
 ImplEncoderRefines == LET S == EncoderSet(Mine)
                           I == ImplEncoder(Mine)
                       IN IF S = {} THEN I = 0 ELSE I \in S
+\* zero-weighted ranges: behind every positive one (whatever the header order); reading them as "not acceptable"
+\* changes the outcome only into the unsupported-encoding error, and only if no positive range is supported
+NPos == Cardinality({i \in 1..N : W(hdr[i]) > 0})
+MinePos == SubSeq(Mine, 1, NPos)
+ZeroLast == /\ \A p \in 1..N : (W(hdr[pref[p]]) > 0) <=> (p <= NPos)
+            /\ MinePos = Parsed(Positive(hdr))
+            /\ EncoderSetZ(hdr) \in {EncoderSet(Mine), {}}
+            /\ EncoderSetZ(hdr) = {} <=> \A p \in 1..NPos, e \in 1..Len(Encoders) : ~Match(Mine[p], Encoders[e])
 DecoderSound ==
     (N > 0 /\ Concrete(Mine[1])) =>
         LET D == DecoderSet(Mine[1])
@@ -235,6 +265,7 @@ ASSUME ExportFrom = 1 => PrintT(ToJson([encoders |-> Encoders, decoders |-> Deco
 Export == (ExportFrom > 0 /\ N >= ExportFrom) =>
     PrintT(ToJson([hdr |-> hdr, order |-> pref, parsed |-> Mine,
                    enc |-> EncoderSet(Mine), ienc |-> ImplEncoder(Mine),
+                   encz |-> EncoderSetZ(hdr),       \* zero-weighted ranges read as "not acceptable": allowed as well
                    conc |-> Concrete(Mine[1]),
                    dec |-> IF Concrete(Mine[1]) THEN DecoderSet(Mine[1]) ELSE {},
                    idec |-> IF Concrete(Mine[1]) THEN ImplDecoder(Mine[1]) ELSE 0]))
